@@ -188,7 +188,9 @@ func (tx *FnTx) applyContract(c *FnContract, key string, names []string, args []
 		tx.oblige("pre", fmt.Sprintf("%s@%d.%s", key, ord, r.Label), s, tx.curReach, "precondition of "+key+": "+r.Src)
 		tx.assumeReach(s)
 	}
-	if tx.c != nil && tx.c.NoPanic && !c.NoPanic && !c.Extern && !c.Iface {
+	if tx.c != nil && tx.c.NoPanicOwn && !c.NoPanic && !c.Extern && !c.Iface {
+		tx.note("assumed not to panic: " + key + " (called from " + tx.key + ")")
+	} else if tx.c != nil && tx.c.NoPanic && !c.NoPanic && !c.Extern && !c.Iface {
 		tx.oblige("safe", fmt.Sprintf("call@%s.%d", key, ord), "false", tx.curReach, "callee "+key+" is not under a nopanic contract")
 	}
 	post := st
@@ -318,6 +320,12 @@ func (tx *FnTx) callCommon(cc *ssa.CallCommon, v ssa.Value, st *State) *State {
 			tx.checkCallAsserts(desc, "after", post, st, res)
 			return post
 		}
+		if mp := cc.Method.Pkg(); mp != nil && (noopPkgs[mp.Path()] || purePkgs[mp.Path()]) {
+			res := tx.freshResults("lib_"+sanitize(cc.Method.Name()), sig, st)
+			tx.setResult(v, sig, res)
+			tx.note("library call treated as effect-free with unconstrained result: " + mp.Path())
+			return st
+		}
 		tx.note("default-havoc callee: " + key)
 		post := tx.h.havocAll(st)
 		res := tx.freshResults("inv_"+cc.Method.Name(), sig, post)
@@ -383,7 +391,9 @@ func (tx *FnTx) callCommon(cc *ssa.CallCommon, v ssa.Value, st *State) *State {
 		tx.checkCallAsserts(desc, "after", st, st, res)
 		return st
 	}
-	if tx.c != nil && tx.c.NoPanic && strings.HasPrefix(pkgPath, modPath) {
+	if tx.c != nil && tx.c.NoPanicOwn && strings.HasPrefix(pkgPath, modPath) {
+		tx.note("assumed not to panic: " + key + " (called from " + tx.key + ")")
+	} else if tx.c != nil && tx.c.NoPanic && strings.HasPrefix(pkgPath, modPath) {
 		k := tx.callOrdinal("nocontract:" + key)
 		tx.oblige("safe", fmt.Sprintf("call@%s.%d", key, k), "false", tx.curReach, "callee "+key+" has no contract (may panic)")
 	}
